@@ -10,6 +10,7 @@ pub mod c14;
 pub mod c07;
 pub mod c01m;
 pub mod c01;
+pub mod c15;
 pub mod evs;
 pub mod fraggen;
 pub mod ost;
@@ -30,6 +31,7 @@ pub fn run_property<C: Codec>(id: &str, tier: Tier) -> i32 {
         "C14" => c14::run::<C>(tier),
         "C07" => c07::run::<C>(tier),
         "C01" => c01::run::<C>(tier),
+        "C15" => c15::run::<C>(tier),
         _ => {
             println!("INCONCLUSIVE unknown property {id}");
             2
@@ -58,6 +60,7 @@ pub fn replay<C: Codec>(text: &str) -> i32 {
         "C14" => c14::replay::<C>(text, &known),
         "C07" => c07::replay::<C>(text, &known),
         "C01" => c01::replay::<C>(text, &known),
+        "C15" => c15::replay::<C>(text, &known),
         _ => None,
     };
     match r {
